@@ -223,6 +223,26 @@ func (env *SpecEnv) eval(e ast.Expr) Value {
 		return env.sliceExpr(x)
 	case *ast.CallExpr:
 		return env.call(x)
+	case *ast.TypeAssertExpr:
+		// x.(*T) in a specification: the pointer held by the interface value (the clause should
+		// also say, or be guarded by, what makes the dynamic type *T; a wrong type reads fields
+		// of an unrelated reference, which only makes the clause unprovable)
+		iv, ok := env.eval(x.X).(IfV)
+		if !ok {
+			specErr("type assertion on a non-interface value %s", exprStr(x.X))
+		}
+		t := env.resolveType(x.Type)
+		if t == nil {
+			specErr("unknown type in %s", exprStr(x))
+		}
+		if iv.Conc != nil && types.Identical(iv.Conc.Type(), t) {
+			return iv.Conc
+		}
+		pt, isPtr := t.Underlying().(*types.Pointer)
+		if !isPtr {
+			specErr("type assertion to a non-pointer type %s in a specification", t)
+		}
+		return PtrV{Loc{Kind: LHeap, Root: pt.Elem(), Ref: iv.Ref, Ty: pt.Elem()}, t}
 	case *ast.CompositeLit:
 		t := env.resolveType(x.Type)
 		if t == nil {
